@@ -69,6 +69,58 @@ def parenthesize(e, rng, extra=0.12):
     return e
 
 
+RUST_LEVEL = {"or": 5, "and": 6, "==": 7, "!=": 7, "<": 7, "<=": 7, ">": 7, ">=": 7, "+": 11, "-": 11, "*": 12}
+
+
+def rust_level(e):
+    if e[0] == "paren":
+        return rust_level(e[1])
+    if e[0] == "un":
+        return 14
+    if e[0] == "bin" and e[1] in RUST_LEVEL:
+        return RUST_LEVEL[e[1]]
+    return 15          # leaves and helper calls (// and %)
+
+
+def leaves(e):
+    if e[0] in ("int", "bool", "var"):
+        return [e]
+    if e[0] == "paren":
+        return leaves(e[1])
+    if e[0] == "un":
+        return leaves(e[2])
+    return leaves(e[2]) + leaves(e[3])
+
+
+def make_safe(e, rng):
+    """Rewrite a tree so that Rust's grammar reads the spliced tokens back as the same tree (no operand binds looser
+    than its context, `not`/unary minus only on atoms): the function is then outside Known_C01_grouping."""
+    def leafify(x):
+        ls = leaves(x)
+        vs = [l for l in ls if l[0] == "var"]
+        return rng.choice(vs or ls)
+    k = e[0]
+    if k == "paren":
+        return ("paren", make_safe(e[1], rng))
+    if k == "un":
+        c = make_safe(e[2], rng)
+        if rust_level(c) < 14:
+            c = leafify(c)
+        if e[1] == "not" and c[0] == "int":
+            c = ("bool", True)
+        return ("un", e[1], c)
+    if k == "bin":
+        l, r = make_safe(e[2], rng), make_safe(e[3], rng)
+        if e[1] in RUST_LEVEL:
+            lv = RUST_LEVEL[e[1]]
+            if rust_level(l) < lv or (lv == 7 and rust_level(l) <= lv):
+                l = leafify(l)
+            if rust_level(r) <= lv:
+                r = leafify(r)
+        return ("bin", e[1], l, r)
+    return e
+
+
 def src_expr(e):
     k = e[0]
     if k == "int":
@@ -235,6 +287,7 @@ class Gen:
         self.rng = rng
         self.anchor_p = anchor_p
         self.paren_extra = paren_extra
+        self.safe = False
 
     # scopes: list of dicts name -> {"ty","mut","anch"}; shadows: list of sets (checker-only shadow bindings)
     def visible(self, k):
@@ -256,15 +309,19 @@ class Gen:
 
     def int_lit(self):
         r = self.rng.random()
-        if r < 0.72:
+        if r < 0.8:
             return ("int", self.rng.randint(0, 12))
-        if r < 0.90:
-            return ("int", self.rng.randint(13, 1000))
-        if r < 0.95:
-            return ("int", self.rng.choice([2**31 - 1, 2**31, 2**32 + 5, 10**12, 2**53 + 1]))
-        if r < 0.985:
-            return ("int", self.rng.choice([2**62, 2**63 - 1, 2**63 - 2, 3037000500]))
-        return ("int", 0)
+        return ("int", self.rng.randint(13, 1000))
+
+    def big_leaf(self):
+        """a large literal combined with a parameter: never a closed (constant-foldable) subtree"""
+        ps = [k for k, v in self.scopes[0].items() if v["ty"] == "int"]
+        big = ("int", self.rng.choice([2**31 - 1, 2**31, 2**32 + 5, 10**12, 2**53 + 1, 2**62, 2**63 - 1, 2**63 - 2, 3037000500]))
+        if not ps or self.visible(ps[0]) is not self.scopes[0][ps[0]]:
+            return self.int_lit()
+        v = ("var", self.rng.choice([p for p in ps if self.visible(p) is self.scopes[0][p]]))
+        op = self.rng.choice(["+", "-", "*", "//", "%"])
+        return ("bin", op, v, big) if self.rng.random() < 0.6 else ("bin", op, big, v)
 
     def int_expr(self, d):
         rng = self.rng
@@ -273,6 +330,8 @@ class Gen:
         if d <= 0 or r < 0.30:
             if vs and rng.random() < 0.6:
                 return ("var", rng.choice(vs))
+            if rng.random() < 0.06:
+                return self.big_leaf()
             return self.int_lit()
         if r < 0.42:
             return ("un", "neg", self.int_expr(d - 1))
@@ -351,6 +410,8 @@ class Gen:
         return None
 
     def fin(self, e):
+        if self.safe:
+            e = make_safe(e, self.rng)
         return parenthesize(e, self.rng, self.paren_extra)
 
     def block(self, depth, in_loop, n, pre=None):
@@ -409,7 +470,7 @@ class Gen:
             return [("print", self.fin(e))]
         if r < 0.72 and depth > 0:
             c = self.fin(self.bool_expr(2))
-            th = self.block(depth - 1, in_loop, rng.randint(1, 3))
+            th = self.block(depth - 1, in_loop, rng.randint(1, 2))
             elifs = []
             while rng.random() < 0.3 and len(elifs) < 2:
                 elifs.append((self.fin(self.bool_expr(2)), self.block(depth - 1, in_loop, rng.randint(1, 2))))
@@ -435,7 +496,7 @@ class Gen:
                 else:
                     a = ("bin", "%", self.int_expr(1), ("int", rng.randint(2, 6)))
                 args.append(self.fin(a))
-            body = self.block(depth - 1, True, rng.randint(1, 3), pre={k: {"ty": "int", "mut": False, "anch": True}})
+            body = self.block(depth - 1, True, rng.randint(1, 2), pre={k: {"ty": "int", "mut": False, "anch": True}})
             return [("for", k, args, body)]
         if in_loop and r < 0.94:
             return [("if", self.fin(self.bool_expr(1)), [(rng.choice(["break", "continue"]),)], [], None)]
@@ -457,12 +518,12 @@ class Gen:
         if rng.random() < 0.25:
             cond = ("bool", True)
             guard = [("if", ("bin", "<=", ("var", k), ("int", 0)), [("break",)], [], None)]
-            body = guard + [dec] + self.block_inner(depth - 1, rng.randint(1, 3), k)
+            body = guard + [dec] + self.block_inner(depth - 1, rng.randint(1, 2), k)
         else:
             cond = ("bin", ">", ("var", k), ("int", 0))
             if rng.random() < 0.3:
                 cond = ("bin", "and", cond, self.bool_expr(1))
-            body = [dec] + self.block_inner(depth - 1, rng.randint(1, 3), k)
+            body = [dec] + self.block_inner(depth - 1, rng.randint(1, 2), k)
         return pre + [("while", self.fin(cond), body)]
 
     def block_inner(self, depth, n, counter):
@@ -480,13 +541,14 @@ class Gen:
 
     def case(self):
         rng = self.rng
+        self.safe = rng.random() < 0.6
         np_ = rng.choice([0, 1, 2, 2, 2, 3])
         params = list(range(np_))
         self.scopes = [{p: {"ty": "int", "mut": False, "anch": True} for p in params}]
         self.shadows = [set()]
         body = []
-        for _ in range(rng.randint(2, 6)):
-            body += self.stmt(3, False)
+        for _ in range(rng.randint(2, 5)):
+            body += self.stmt(2, False)
         args = []
         for _ in params:
             r = rng.random()
@@ -560,6 +622,8 @@ def real_codes(tokens):
     toks = []
     for t in tokens:
         toks += split_punct(t)
+    # prettyplease breaks long argument lists over lines and adds a trailing comma: `f(a, b, )`
+    toks = [t for j, t in enumerate(toks) if not (t == "," and j + 1 < len(toks) and toks[j + 1] == ")")]
     out, i = [], 0
     while i < len(toks):
         t = toks[i]
@@ -596,7 +660,8 @@ def eval_model(cases, tag="c01"):
     res = vlib.coq_eval(REQ, MODEL_TYPE, "run_case default_fuel", [c.coq() for c in cases], shard=max(8, (len(cases) + 15) // 16), tag=tag)
     out = []
     for r in res:
-        (src, rust, flags, codes) = r
+        (src_lines, src_stop, rust, flags, codes) = r       # Coq prints left-nested pairs flat
+        src = (src_lines, src_stop)
         out.append({"src": ([tuple(x) for x in src[0]], src[1]),
                     "status": rust[0], "rust": ([tuple(x) for x in rust[1][0]], rust[1][1]), "typed": rust[2],
                     "grouping": flags[0], "fallback": flags[1], "codes": list(codes)})
@@ -727,52 +792,57 @@ def describe(case, name="t"):
     return case.source(name) + "# call: " + case.call(name)
 
 
-def run(chk):
-    chk.trusted = [
-        "Coq 8.16.1 kernel (coqc, vm_compute); no axioms (every theorem closed under the global context)",
-        "hand-written models coq/Core/{Dynamic,Lower,Rust}.v: source semantics written from the language reference; lowering+emission "
-        "model of lower/{expr,stmt}.rs + emit/{expressions,statements}.rs + determine_binop_plan (tied by the token-text run); "
-        "Rust grammar/semantics model (tied by the real-binary run)",
-        "C04 kernels regenerated by rs2v (py_mod_i64 / py_floor_div_i64 meaning), Base/I64.v wrapping arithmetic",
-        "rustc 1.95 / cargo / LLVM (the real binary is what is observed), proc_macro2 tokenizer, the vharness c01 adapter, this script's differ",
-    ]
-    chk.assumptions = [
-        "scope proved: the MiniIncan fragment listed in coverage.constructs; everything outside it is not covered by C01 yet",
-        "integer overflow is not specified by the documentation: source runs ending in `unspecified(overflow)` are excluded from the theorem "
-        "and compared only against the Rust-side model (wrapping)",
-        "one test function per Coq case; call/return between user functions is outside the fragment",
-    ]
-    known = load_findings(chk, "C01")
-    res = chk.proof_stage("C01", allow_axioms=(), rs2v_units=["CoreNum", "StdNum"])
-    dbg = vlib.build_harness("debug")
-    quick = chk.tier == "quick"
-    n_gen = 330 if quick else 2400
-    batch_size = 140
-    n_batches = 1 if quick else 8
-    n_panic = 4 if quick else 16
-
-    g = Gen(chk.rng)
-    cases = corpus()
-    seen = set(c.key() for c in cases)
-    while len(cases) < n_gen:
-        c = g.case()
-        if c.key() in seen:
+def lint_culprits(msg, main_rs):
+    """names of the functions in which rustc reported ONLY constant-overflow lint errors; None if the build failed for
+    any other reason as well"""
+    try:
+        lines = open(main_rs).read().split("\n")
+    except OSError:
+        return None
+    starts = [(i + 1, m.group(1)) for i, l in enumerate(lines) for m in [re.match(r"\s*fn (\w+)\(", l)] if m]
+    bad = set()
+    blocks = re.split(r"\n(?=error|warning)", msg)
+    for b in blocks:
+        if not b.startswith("error"):
             continue
-        seen.add(c.key())
-        cases.append(c)
-    chk.coverage["constructs"] = CONSTRUCTS
+        if b.startswith("error: could not compile") or b.startswith("error: aborting"):
+            continue
+        if "this arithmetic operation will overflow" not in b:
+            return None
+        m = re.search(r"--> src/main\.rs:(\d+):", b)
+        if not m:
+            return None
+        ln = int(m.group(1))
+        owner = None
+        for st, name in starts:
+            if st <= ln:
+                owner = name
+        if owner is None:
+            return None
+        bad.add(owner)
+    return bad
 
+
+def clean_gen_target(stems):
+    base = os.path.join(vlib.BUILD, "gen-target", "release")
+    for stem in stems:
+        for sub, pat in (("", stem), ("", stem + ".d"), ("deps", stem + "-"), (".fingerprint", stem + "-")):
+            dd = os.path.join(base, sub)
+            if not os.path.isdir(dd):
+                continue
+            for f in os.listdir(dd):
+                if (sub == "" and f == pat) or (sub != "" and f.startswith(pat)):
+                    fp = os.path.join(dd, f)
+                    shutil.rmtree(fp, ignore_errors=True) if os.path.isdir(fp) else os.remove(fp)
+
+
+def pipeline(chk, binary, cases, known, n_batches, batch_size, n_panic, n_fallback=10):
+    """ties + oracle for a list of cases. Returns (fails, corr_bad, stats)."""
+    stats = {}
     model_ok = vlib.coq_build(["C01/Model.vo"])[0]
-    if not model_ok:
-        res["tie_ok"] = False
-        res["broken"].append({"what": "model", "message": "C01/Model.v no longer builds (C04 kernels changed shape?)"})
-        model = None
-    else:
-        model = eval_model(cases)
-
-    # ---- real front end + emission, one program per function
-    real = emit_real(dbg, [c.source("t0") + "def main() -> None:\n    " + c.call("t0") + "\n" for c in cases])
-
+    model = eval_model(cases) if model_ok else None
+    stats["model_ok"] = model_ok
+    real = emit_real(binary, [c.source("t0") + "def main() -> None:\n    " + c.call("t0") + "\n" for c in cases])
     fails, corr_bad, rejected, dist = [], [], [], {}
     usable = []
     for i, c in enumerate(cases):
@@ -807,41 +877,64 @@ def run(chk):
                                  "real": " ".join(r["fns"]["t0"]["body"]), "real_codes": rc[max(0, k - 6):k + 6], "model_codes": m["codes"][max(0, k - 6):k + 6]})
                 continue
         usable.append(i)
-    chk.coverage["emit_text_compared"] = len(usable)
-    chk.coverage["checker_rejected_valid_functions"] = len(rejected)
-    if rejected:
-        chk.notes.append({"note": "functions valid by the documented scope rules that the checker rejects (C03 territory, not a C01 failure)",
-                          "samples": rejected[:3]})
+    stats["emit_text_compared"] = len(usable)
+    stats["rejected"] = rejected
+    vlib.log("[c01] %d functions: %d usable after parser/emission ties, %d tie mismatches, %d rejected by the checker"
+             % (len(cases), len(usable), len(corr_bad), len(rejected)))
 
-    # ---- real binary: batches of functions expected to finish, plus programs ending in one expected panic
-    observed = {}
+    observed, build_fail_known = {}, {}
     if model:
-        done = [i for i in usable if model[i]["status"] == 0 and model[i]["typed"] and model[i]["rust"][1] == 0 and model[i]["src"][1] in (0, 3)]
-        # known-class members first so each class is exercised, then the rest
+        runnable = [i for i in usable if model[i]["status"] == 0 and model[i]["typed"]]
+        done = [i for i in runnable if model[i]["rust"][1] == 0 and model[i]["src"][1] in (0, 3) and not model[i]["fallback"]]
         done.sort(key=lambda i: (cases[i].origin != "corpus",))
-        pan = [i for i in usable if model[i]["status"] == 0 and model[i]["typed"] and model[i]["rust"][1] in (1, 2, 4)]
+        fb = [i for i in runnable if model[i]["rust"][1] == 0 and model[i]["src"][1] in (0, 3) and model[i]["fallback"]]
+        fb.sort(key=lambda i: (cases[i].origin != "corpus",))
+        pan = [i for i in runnable if model[i]["rust"][1] in (1, 2, 4) and not model[i]["fallback"]]
         pan.sort(key=lambda i: (cases[i].origin != "corpus",))
         progs, layout = [], {}
-        tagp = "c01s%dp%d" % (chk.seed % 100000, os.getpid() % 10000)
+        tagp = "c01s%dp%d" % (chk.seed % 100000, os.getpid() % 100000)
         for b in range(n_batches):
             chunk = done[b * batch_size:(b + 1) * batch_size]
             if not chunk:
                 break
             stem = "%sb%d" % (tagp, b)
             layout[stem] = [("t%d" % i, i) for i in chunk]
-            progs.append((stem, batch_source([(n, cases[i]) for n, i in layout[stem]])))
+        if fb and n_fallback:
+            layout[tagp + "f0"] = [("t%d" % i, i) for i in fb[:n_fallback]]
         for b, i in enumerate(pan[:n_panic]):
-            stem = "%sz%d" % (tagp, b)
-            layout[stem] = [("t%d" % i, i)]
-            progs.append((stem, batch_source([("t%d" % i, cases[i])])))
+            layout["%sz%d" % (tagp, b)] = [("t%d" % i, i)]
+        for stem, members in layout.items():
+            progs.append((stem, batch_source([(n, cases[i]) for n, i in members])))
         d = scratch_dir("c01")
         try:
-            built = build_programs(dbg, d, progs)
+            built = build_programs(binary, d, progs)
+            # rustc's deny-by-default lint `arithmetic_overflow` rejects functions in which it can fold an overflowing
+            # constant computation (the documentation leaves overflow unspecified): drop exactly those functions, rebuild once
+            retry = []
+            for stem, src in list(progs):
+                ok, msg, path = built[stem]
+                if ok or "this arithmetic operation will overflow" not in msg:
+                    continue
+                bad_fns = lint_culprits(msg, os.path.join(d, "out_" + stem, "src", "main.rs"))
+                if bad_fns is None:
+                    continue
+                keep = [(n, i) for n, i in layout[stem] if n not in bad_fns]
+                stats.setdefault("const_overflow_lint", []).extend(describe(cases[i], n) for n, i in layout[stem] if n in bad_fns)
+                if keep:
+                    layout[stem + "r"] = keep
+                    retry.append((stem + "r", batch_source([(n, cases[i]) for n, i in keep])))
+                progs.remove((stem, src))
+            if retry:
+                built.update(build_programs(binary, d, retry))
+                progs += retry
             for stem, src in progs:
                 ok, msg, path = built[stem]
                 if not ok:
-                    # every member was accepted by the checker and is well-typed in the model: a failing input for C01's tie
-                    corr_bad.append({"case": src[:3000], "tie": "rustc rejected a batch the model types as valid Rust", "real": msg[-1500:]})
+                    if stem.endswith("f0") and ("i32" in msg) and "int-fallback" in known:
+                        # members of Known_C01_int_fallback: rustc typed a literal/constant computation as i32 and rejected it
+                        build_fail_known["int-fallback"] = msg[-600:]
+                        continue
+                    corr_bad.append({"case": src[:4000], "tie": "rustc rejected a batch of functions the model types as valid Rust", "real": msg[-2500:]})
                     continue
                 obs, (rc, err) = run_binary(path, [n for n, _ in layout[stem]])
                 for n, i in layout[stem]:
@@ -849,24 +942,22 @@ def run(chk):
                         observed[i] = obs[n]
         finally:
             shutil.rmtree(d, ignore_errors=True)
-            for stem, _ in progs:
-                for p in (os.path.join(vlib.BUILD, "gen-target", "release", stem),):
-                    if os.path.exists(p):
-                        os.remove(p)
+            clean_gen_target([stem for stem, _ in progs])
+        vlib.log("[c01] real binaries: %d program(s), %d functions observed" % (len(progs), len(observed)))
 
-    known_hits = {}
+    known_hits = {k: [] for k in build_fail_known}
     for i, (lines, stop) in sorted(observed.items()):
         c, m = cases[i], model[i]
         got = (list(lines), stop)
-        key = (STOPS.get(m["src"][1], "?"), m["grouping"], m["fallback"])
+        key = (STOPS.get(m["src"][1], "?"), "grouping" if m["grouping"] else "", "int-fallback" if m["fallback"] else "")
         dist[str(key)] = dist.get(str(key), 0) + 1
         chk.count_case(c.key(), nontrivial=(len(lines) > 0))
         exp_src = (list(m["src"][0]), m["src"][1])
         exp_rust = (list(m["rust"][0]), m["rust"][1])
-        src_defined = m["src"][1] in (0, 1, 2)
-        bad_oracle = src_defined and got != exp_src
         if m["src"][1] == 3:     # unspecified from some point on: the defined prefix must still be printed
             bad_oracle = got[0][:len(exp_src[0])] != exp_src[0]
+        else:
+            bad_oracle = m["src"][1] in (0, 1, 2) and got != exp_src
         if bad_oracle:
             cls = [k for k, flag in (("grouping", m["grouping"]), ("int-fallback", m["fallback"])) if flag]
             listed = [k for k in cls if k in known]
@@ -881,20 +972,68 @@ def run(chk):
             continue
         if got != exp_rust and not m["fallback"]:
             corr_bad.append({"case": describe(c), "tie": "Rust-side model vs real binary", "real": got, "model": exp_rust})
+    stats.update({"distribution": dist, "observed": len(observed), "known_hits": known_hits, "model": model})
+    return fails, corr_bad, stats
+
+
+def gen_cases(chk, n_gen):
+    g = Gen(chk.rng)
+    cases = corpus()
+    seen = set(c.key() for c in cases)
+    while len(cases) < n_gen:
+        c = g.case()
+        if c.key() in seen:
+            continue
+        seen.add(c.key())
+        cases.append(c)
+    return cases
+
+
+def run(chk):
+    chk.trusted = [
+        "Coq 8.16.1 kernel (coqc, vm_compute); no axioms (every theorem closed under the global context)",
+        "hand-written models coq/Core/{Dynamic,Lower,Rust}.v: source semantics written from the language reference; lowering+emission "
+        "model of lower/{expr,stmt}.rs + emit/{expressions,statements}.rs + determine_binop_plan (tied by the token-text run); "
+        "Rust grammar/semantics model (tied by the real-binary run)",
+        "C04 kernels regenerated by rs2v (py_mod_i64 / py_floor_div_i64 meaning), Base/I64.v wrapping arithmetic",
+        "rustc 1.95 / cargo / LLVM (the real binary is what is observed), proc_macro2 tokenizer, the vharness c01 adapter, this script's differ",
+    ]
+    chk.assumptions = [
+        "scope proved: the MiniIncan fragment listed in coverage.constructs; everything outside it is not covered by C01 yet",
+        "integer overflow is not specified by the documentation: source runs ending in `unspecified(overflow)` are excluded from the theorem "
+        "and compared only against the Rust-side model (wrapping)",
+        "one test function per Coq case; call/return between user functions is outside the fragment",
+    ]
+    known = load_findings(chk, "C01")
+    res = chk.proof_stage("C01", allow_axioms=(), rs2v_units=["CoreNum", "StdNum"])
+    dbg = vlib.build_harness("debug")
+    quick = chk.tier == "quick"
+    cases = gen_cases(chk, 330 if quick else 2400)
+    chk.coverage["constructs"] = CONSTRUCTS
+    fails, corr_bad, stats = pipeline(chk, dbg, cases, known, n_batches=1 if quick else 8, batch_size=150, n_panic=4 if quick else 16)
+    if not stats["model_ok"]:
+        res["tie_ok"] = False
+        res["broken"].append({"what": "model", "message": "C01/Model.v no longer builds (C04 kernels changed shape?)"})
+    rejected = stats["rejected"]
+    chk.coverage["emit_text_compared"] = stats["emit_text_compared"]
+    chk.coverage["checker_rejected_valid_functions"] = len(rejected)
+    if rejected:
+        chk.notes.append({"note": "functions valid by the documented scope rules that the checker rejects (C03 territory, not a C01 failure)",
+                          "samples": rejected[:3]})
     chk.coverage["rule"] = ("seeded generator of fragment functions (valid by the documented scope/type rules and accepted by the current checker) + fixed corpus; "
                             "every function: parser-tree tie, emitted-token tie, Coq evaluation of source and Rust-side semantics; functions whose model run "
                             "finishes are batched into one generated program built by the real `incan build` path and run; non-trivial = printed at least one line")
-    chk.coverage["distribution"] = dist
+    chk.coverage["distribution"] = stats["distribution"]
     chk.coverage["functions_generated"] = len(cases)
-    chk.coverage["functions_run_in_real_binary"] = len(observed)
-    chk.coverage["traces_validated_against_impl"] = len(observed)
+    chk.coverage["functions_run_in_real_binary"] = stats["observed"]
+    chk.coverage["traces_validated_against_impl"] = stats["observed"]
     chk.coverage["correspondence_mismatches"] = len(corr_bad)
-    chk.coverage["known_class_failures"] = {k: len(v) for k, v in known_hits.items()}
-    for c in cases[:2] + cases[len(corpus()):len(corpus()) + 4]:
+    chk.coverage["known_class_failures"] = {k: len(v) if isinstance(v, list) else 1 for k, v in stats["known_hits"].items()}
+    nc = len(corpus())
+    for c in cases[:2] + cases[nc:nc + 4]:
         chk.sample(describe(c))
-
     for fid, f in known.items():
-        if known_hits.get(fid):
+        if fid in stats["known_hits"]:
             chk.known(fid, "%s: %s" % (fid, f["summary"]))
     for f in fails[:20]:
         chk.violation("failing-input", f)
